@@ -213,6 +213,12 @@ class Engine(object):
             rec["cmd"] = "settings"
             if step[1].get("at") is not None:
                 self.at_table = [(c, (None if p is None else re.compile(p)), a) for c, p, a in step[1]["at"]]
+        elif kind == "api_delete":
+            # plugin layer: a region deleted through the API (allowed while printing only with the shrink setting on)
+            resp = self.driver.api("deleteExcludeRegion", dict(id=step[1]))
+            rec["cmd"] = "delete region %r -> %r" % (step[1], resp)
+            if resp is None:
+                self.regions = [r for r in self.regions if r[-1] != step[1]]
         elif kind == "script":
             self._script(rec, step[1], step[2])
         elif kind == "event":
